@@ -11,6 +11,10 @@ def two_inputs_share_callable(rec):
     return rec.get('replay', {}).get('status') == 'replay-skipped'
 
 
+def function_carries_a_signature_left_by_annotate(rec):
+    return bool(rec.get('task', {}).get('annotated'))
+
+
 def three_or_more_inputs(rec):
     t = rec.get('task', {})
     shapes = t.get('shapes_') or t.get('shapes') or []
